@@ -80,15 +80,30 @@ RESIDUES = [
     "units 37 %s" % S("gone_u"), "model 38", "addunits 38 37", "variable 39 %s" % S("w"), "addvariable 25 39",
     "setunits_p 39 37", "release 38",
 ]
-SERVICES = WITH_RESET + ["svc", "ann_setmodel 0", "ev_create 6", "an_addext", "an_analyse 0", "val_validate 0",
+SERVICES = WITH_RESET + ["svc", "ann_setmodel 0", "ev_create 6", "ev_adddep 5", "an_addext", "an_analyse 0", "val_validate 0",
                          "imp_addimportsource 9", "imp_addmodel 15 %s" % S("lib.cellml")]
 # the annotator's model has been destroyed
 DEAD_MODEL = ["model 0 %s" % S("m"), "component 1 %s" % S("c"), "setid 1 %s" % S("cid"), "addcomponent 0 1", "variable 2 %s" % S("v"),
               "addvariable 1 2", "svc", "ann_setmodel 0", "release 0"]
 
 SERVICE_SETUP = SERVICES[len(WITH_RESET):]
+# residues on the SERVICE side: what the services refer to (the analyser's external variable y and its dependency t, the
+# annotator's model and cached items, the importer's library model and import source) changes AFTER it was registered
+SERVICE_RESIDUES = {
+    "referent-lost-its-owner": ["removevariable_p 2 6", "removevariable_p 2 5", "removecomponent_p 0 1 false"],
+    "referent-moved-to-another-model": ["addvariable 25 6", "addvariable 25 5", "addcomponent 24 1"],
+    "referent-model-destroyed": ["release 0"],
+    "referent-renamed": ["setname 6 %s" % S("y2"), "setname 2 %s" % S("c2x"), "setname 5 %s" % S("t2x"), "setid 1 %s" % S("c1idx"),
+                         "setid 4 %s" % S("xidx"), "setname 15 %s" % S("free_m2"), "seturl 9 %s" % S("elsewhere.cellml")],
+    "referent-destroyed": ["removecomponent_p 0 1 true", "release 1", "release 3", "release 4", "removemodel 9"],
+}
 STATES = {"objects": WITH_RESET, "services": SERVICES, "deadmodel": DEAD_MODEL,
           "objects_residues": WITH_RESET + RESIDUES, "services_residues": WITH_RESET + RESIDUES + SERVICE_SETUP}
+for _n, _ops in SERVICE_RESIDUES.items():
+    STATES["services:" + _n] = SERVICES + _ops
+RESIDUE_OF_STATE = {"objects": "none", "services": "none", "deadmodel": "referent-destroyed", "objects_residues": "entity-side residues",
+                    "services_residues": "entity-side residues"}
+RESIDUE_OF_STATE.update({"services:" + n: n for n in SERVICE_RESIDUES})
 
 COUNTS = {  # one past the end, per (receiver slot, list)
     ("comp", 0): 2, ("comp", 1): 0, ("var", 1): 2, ("reset", 25): 1, ("reset", 1): 0, ("units", 0): 1, ("unit", 7): 1,
@@ -181,6 +196,19 @@ RECEIVER_CASES = [
     ("objects", ["setunits_p 4 18"], "clean 0", "o", "nocrash", "Model::clean", "orphan"),
     ("objects", ["setimportsource 10 14"], "hasimports 0", "b", "nocrash", "Model::hasImports", "free"),
 ]
+# an entity added twice to its container and removed once stays listed with parent() == nullptr (the re-add is outside the
+# ownership claim; "no call crashes" still holds for what is called on that state) -- C19-readded-units-lose-parent
+READDED = {"units": ["addunits 0 7", "removeunits_i 0 0"], "component": ["addcomponent 0 1", "removecomponent_i 0 0"],
+           "variable": ["addvariable 1 3", "removevariable_i 1 0"], "reset": ["addreset 25 8", "removereset_i 25 0"]}
+for _k, _ops in READDED.items():
+    _m = "24" if _k == "reset" else "0"
+    for _call, _ep in (("validate " + _m, "Validator::validateModel"), ("print " + _m, "Printer::printModel"), ("clone %s 40" % _m, "Model::clone"),
+                       ("isdefined " + _m, "Model::isDefined"), ("linkunits " + _m, "Model::linkUnits"),
+                       ("fixvariableinterfaces " + _m, "Model::fixVariableInterfaces"), ("hasimports " + _m, "Model::hasImports"),
+                       ("hasunresolvedimports " + _m, "Model::hasUnresolvedImports"), ("clean " + _m, "Model::clean"),
+                       ("an_analyse " + _m, "Analyser::analyseModel"), ("ann_assignallids " + _m, "Annotator::assignAllIds"),
+                       ("imp_flatten " + _m, "Importer::flattenModel"), ("ann_setmodel " + _m, "Annotator::setModel")):
+        RECEIVER_CASES.append(("objects", ["svc"] + _ops, _call, "o", "nocrash", _ep, "readded-" + _k))
 
 # ---- services: command template, return kind, policy per slot-typed parameter as for OBJ
 SVC = """
@@ -219,7 +247,7 @@ val_validate o mN | pr_print s mN | log_issue p idx:big | log_error p idx:big | 
 """ % {"nm": S("nm"), "cid": S("c1id"), "xid": S("xid"), "mid": S("mid"), "uid": S("uid"), "mapid": S("mapid"),
        "connid": S("connid"), "unitid": S("unitid"), "lib": S("lib.cellml"), "c2": S("c2"), "y": S("y")}
 
-SVC_COUNTS = {"lib": 1, "is": 1, "ext": 1, "dep": 0, "state": 1, "amvar": 1, "ameq": 2, "big": 99, "unit": 1}
+SVC_COUNTS = {"lib": 1, "is": 1, "ext": 1, "dep": 1, "state": 1, "amvar": 1, "ameq": 2, "big": 99, "unit": 1}
 
 # after the annotator's model died: every annotator entry point (no argument needed to go wrong)
 DEAD_CALLS = ["ann_ids", "ann_duplicateids", "ann_item %s" % S("cid"), "ann_component %s" % S("cid"), "ann_isunique %s" % S("cid"),
@@ -312,6 +340,16 @@ def all_cases():
     COUNTS[("reset", 25)] = 2
     cases += expand(OBJ, "objects_residues", False) + expand(SVC, "services_residues", True)
     COUNTS[("reset", 25)] = 1
+    # the service product from every service-side residue state (calls that name a slot the residue released cannot be written)
+    for n, ops in SERVICE_RESIDUES.items():
+        gone = {o.split()[1] for o in ops if o.startswith("release ")}
+        cases += [c for c in expand(SVC, "services:" + n, True) if not (set(c["call"].split()[1:]) & gone)]
+    for c in cases:
+        # once the caller has dropped the model, the analyser's previous AnalyserModel is its last owner: analysing anything
+        # else (here: null) destroys it, and the components the caller still holds lose their parent -- not a change made
+        # to the entities by the call
+        if c["state"] == "services:referent-model-destroyed" and c["cmd"] == "an_analyse":
+            c["expect"] = "nocrash"
     for st, extra, call, rk, exp, ep, cls in RECEIVER_CASES:
         cases.append({"state": st, "extra": extra, "call": call, "ret": rk, "expect": exp, "cmd": call.split()[0], "cls": cls,
                       "param": -1, "entry_point": ep})
@@ -476,6 +514,7 @@ def stage2(ctx, drv):
     api = c09_api.parse_headers(vf.REPO)
     sel = sorted({"%s::%s" % (a["class"], a["method"]) for a in api if any(a["kinds"])})
     cov = sorted(m for m in sel if m in covered or any("::" in e and m.split("::")[1] == e.split("::")[1] and _related(m, e) for e in covered))
+    matrix = service_matrix(api, cases)
     notcov = [m for m in sel if m not in cov]
     value_only = [m for m in notcov if VALUE_ONLY.match(m.split("::")[1])]
     notcov = [m for m in notcov if m not in value_only]
@@ -484,9 +523,49 @@ def stage2(ctx, drv):
     return {"nontrivial": len(cases) - hist["error"], "samples": [lines[0].split("|")[1], lines[len(lines) // 2].split("|")[1]],
             "dist": {"calls": len(cases), "verdicts": hist, "by_class": by_class, "start_states": sorted(STATES)},
             "entry_points": {"taking_entity_index_or_name": len(sel), "covered": cov, "not_covered": notcov,
-                             "not_covered_value_only": value_only,
+                             "not_covered_value_only": value_only, "service_residue_matrix": matrix,
                              "note": "value_only: the string parameter is a value to store (a name, id, url, reference to set; a factory's "
                                      "initial name), nothing is looked up, so no bad argument class applies"}}
+
+
+SERVICE_CLASSES = ("Annotator", "Importer", "Analyser", "AnalyserExternalVariable", "AnalyserModel", "AnalyserEquation",
+                   "AnalyserVariable", "Generator", "Validator", "Printer")
+
+
+def service_matrix(api, cases):
+    """(service entry point) x (residue class of what the service refers to) x (bad argument class): expected from the
+    public headers, covered from the cases of this run"""
+    residues = ["none", "entity-side residues"] + sorted(SERVICE_RESIDUES)
+    expected = set()
+    for a in api:
+        if a["class"] not in SERVICE_CLASSES or not any(a["kinds"]):
+            continue
+        m = "%s::%s" % (a["class"], a["method"])
+        args = set()
+        for k in a["kinds"]:
+            if k is None:
+                continue
+            args |= {"entity": {"null", "foreign"}, "index": {"oob"}, "name": {"unknown"}}[k.split(":")[0]]
+        for r in residues:
+            for x in args:
+                expected.add((m, r, x))
+    covered = set()
+    for c in cases:
+        ep = api_method_of(c["cmd"], c.get("entry_point"))
+        if "::" not in ep or ep.split("::")[0] not in SERVICE_CLASSES:
+            continue
+        r = RESIDUE_OF_STATE.get(c["state"])
+        x = {"free": "foreign", "orphan": "foreign"}.get(c["cls"], c["cls"])
+        covered.add((ep, r, x))
+    missing = sorted(expected - covered)
+    by_method = {}
+    for m, r, x in missing:
+        by_method.setdefault(m, []).append("%s@%s" % (x, r))
+    return {"residue_classes": residues, "cells_expected_from_headers": len(expected), "cells_covered": len(expected & covered),
+            "uncovered_cells": {m: v for m, v in sorted(by_method.items())},
+            "note": "foreign = never added / owner destroyed / belonging to another model; a model parameter has no 'foreign' value "
+                    "for the services that accept any model (analyseModel, validateModel, printModel, flattenModel, setModel ...): those "
+                    "cells are listed as uncovered on purpose"}
 
 
 def _related(m, e):
